@@ -405,7 +405,7 @@ def s7(chk: Check, proj: Project, w) -> None:
                 "the payload's namedtuple class does not come from this call's keyword names (memoised / shared): a later render of the same tag with other keys raises TypeError or returns the earlier provider's fields"))
 
 MANIFEST = {
-    "text": "Decides the structural obligations provide/inject needs on every path: inject keys are forwarded completely and unconditionally at every context switch and enumerated on the whole context; the provider holds its own reference for the extent of its body; provided data is deleted only under an emptiness test; component references are released on every exceptional exit; provide code stores only prefixed ids into the Context; inject() has its three exits in order. Also: deferred code never renders with the live input context; inject keys do not outlive their provider; the inject path keeps no memo on the component object; the provider reference is released only after the render's last user hook. Round 4 / triage: deferred hooks run under metadata that carries the live context (known finding F34). Round 5: the layer-wise forwarding form is understood (nearest provider wins), registration is unconditional, error cleanup releases own references only.",
+    "text": "Decides the structural obligations provide/inject needs on every path: inject keys are forwarded completely and unconditionally at every context switch and enumerated on the whole context; the provider holds its own reference for the extent of its body; provided data is deleted only under an emptiness test; component references are released on every exceptional exit; provide code stores only prefixed ids into the Context; inject() has its three exits in order. Also: deferred code never renders with the live input context; inject keys do not outlive their provider; the inject path keeps no memo on the component object; the provider reference is released only after the render's last user hook. Round 4 / triage: deferred hooks run under metadata that carries the live context (known finding F34). Round 5: the layer-wise forwarding form is understood (nearest provider wins), registration is unconditional, error cleanup releases own references only. Round 6: the payload namedtuple keeps the provider's own keyword names (no rename).",
     "note": "Trusted: Django's Context.update copies the pushed dict and flatten() sees all layers. Not decided: 'nearest provider' as a statement about Context-stack shadowing and snapshots under deferred rendering; histories.",
     "technique": "static pass-through completeness, typestate of the provide entry (context-manager summaries), acquire/release pairing, key/taint discipline",
 }
